@@ -13,6 +13,7 @@ import (
 	"fmt"
 	"go/token"
 	"go/types"
+	"strings"
 
 	"golang.org/x/tools/go/ssa"
 
@@ -30,6 +31,65 @@ type linval struct {
 type hexEval struct {
 	param ssa.Value
 	why   string
+	gate  bool // phis outside a walk are resolved through the branch that controls them
+}
+
+// gated: the edge of phi that is taken for every c in [lo, hi], found through the conditions of the branches between
+// the phi's immediate dominator and its block (if / else-if chains, `v := a; if … { v = b }`); nil when the interval
+// does not decide it or the shape is another one.
+func (h *hexEval) gated(phi *ssa.Phi, lo, hi int64, env map[*ssa.Phi]ssa.Value, depth int) ssa.Value {
+	m := phi.Block()
+	d := m.Idom()
+	cands := map[int]bool{}
+	for i := range m.Preds {
+		cands[i] = true
+	}
+	for steps := 0; d != nil && steps < 8; steps++ {
+		iff, ok := d.Instrs[len(d.Instrs)-1].(*ssa.If)
+		if !ok {
+			return nil
+		}
+		c := h.eval(iff.Cond, lo, hi, env, depth+1)
+		if !c.known || !c.isBool {
+			return nil
+		}
+		side := d.Succs[1]
+		if c.b {
+			side = d.Succs[0]
+		}
+		if side == m {
+			// the edge d → m itself
+			for i, p := range m.Preds {
+				if p == d && cands[i] {
+					if d.Succs[0] == d.Succs[1] {
+						return nil
+					}
+					return phi.Edges[i]
+				}
+			}
+			return nil
+		}
+		if len(side.Preds) != 1 {
+			return nil
+		}
+		n, last := 0, -1
+		for i, p := range m.Preds {
+			if cands[i] && side.Dominates(p) {
+				n++
+				last = i
+			} else {
+				delete(cands, i)
+			}
+		}
+		switch {
+		case n == 0:
+			return nil
+		case n == 1:
+			return phi.Edges[last]
+		}
+		d = side
+	}
+	return nil
 }
 
 func typeRange(t types.Type) (int64, int64, bool) {
@@ -69,11 +129,10 @@ func (h *hexEval) eval(v ssa.Value, lo, hi int64, env map[*ssa.Phi]ssa.Value, de
 		}
 		return l
 	}
+	if v == h.param {
+		return linval{known: true, slope: 1}
+	}
 	switch x := v.(type) {
-	case *ssa.Parameter:
-		if v == h.param {
-			return linval{known: true, slope: 1}
-		}
 	case *ssa.Const:
 		if n, ok := constInt(x); ok {
 			return linval{known: true, offset: n}
@@ -89,6 +148,11 @@ func (h *hexEval) eval(v ssa.Value, lo, hi int64, env map[*ssa.Phi]ssa.Value, de
 	case *ssa.Phi:
 		if e, ok := env[x]; ok {
 			return h.eval(e, lo, hi, env, depth+1)
+		}
+		if h.gate {
+			if e := h.gated(x, lo, hi, env, depth); e != nil {
+				return h.eval(e, lo, hi, env, depth+1)
+			}
 		}
 	case *ssa.UnOp:
 		if x.Op == token.NOT {
@@ -374,8 +438,270 @@ func init() {
 					s.OK(key, pos, "0-9 → 0-9, A-F and a-f → 10-15 on every path")
 				}
 			}
+			hexvalInline(c, s)
 		},
 	})
+}
+
+// scaleOf: v is x*K or x<<k with a constant; returns the radix.
+func scaleOf(v ssa.Value) (int64, bool) {
+	bo, ok := stripConv(v).(*ssa.BinOp)
+	if !ok {
+		return 0, false
+	}
+	switch bo.Op {
+	case token.MUL:
+		if k, ok := constInt(bo.Y); ok {
+			return k, true
+		}
+		if k, ok := constInt(bo.X); ok {
+			return k, true
+		}
+	case token.SHL:
+		if k, ok := constInt(bo.Y); ok && k >= 1 && k <= 4 {
+			return int64(1) << uint(k), true
+		}
+	}
+	return 0, false
+}
+
+func isLoopHeaderPhi(p *ssa.Phi) bool {
+	b := p.Block()
+	for _, pr := range b.Preds {
+		if b.Dominates(pr) {
+			return true
+		}
+	}
+	return false
+}
+
+// digitLeaves: the values other than constants that the digit expression v is computed from, stopping at calls,
+// parameters, loads and the variables a loop carries.
+func digitLeaves(v ssa.Value, seen map[ssa.Value]bool, out map[ssa.Value]bool, arith *int) {
+	if seen[v] || len(seen) > 200 {
+		return
+	}
+	seen[v] = true
+	switch x := v.(type) {
+	case *ssa.Const:
+	case *ssa.Convert:
+		digitLeaves(x.X, seen, out, arith)
+	case *ssa.ChangeType:
+		digitLeaves(x.X, seen, out, arith)
+	case *ssa.BinOp:
+		*arith++
+		digitLeaves(x.X, seen, out, arith)
+		digitLeaves(x.Y, seen, out, arith)
+	case *ssa.Phi:
+		if isLoopHeaderPhi(x) {
+			out[v] = true
+			return
+		}
+		for _, e := range x.Edges {
+			digitLeaves(e, seen, out, arith)
+		}
+	default:
+		out[v] = true
+	}
+}
+
+// hexvalInline: digit values computed in place — acc*K + e(c), acc<<k | e(c) with K one of 8, 10, 16 and e arithmetic on
+// one code point c — are judged on the set the dominating membership test `S.Test(uint(c))` admits (S a set of the
+// package whose table is known). A digit parsed by strconv must be parsed in the radix it is scaled by.
+func hexvalInline(c *Ctx, s *core.Sink) {
+	tabs := BuildTables(c)
+	for _, f := range c.P.ModFns {
+		if len(f.Blocks) == 0 {
+			continue
+		}
+		n := 0
+		props := []string{"C08", "C01"}
+		if strings.HasSuffix(core.PkgPathOf(f), "/canonicalizer") {
+			props = []string{"C18"}
+		}
+		for _, b := range f.Blocks {
+			for _, ins := range b.Instrs {
+				bo, ok := ins.(*ssa.BinOp)
+				if !ok || (bo.Op != token.ADD && bo.Op != token.OR) {
+					continue
+				}
+				if _, _, isInt := intTypeInfo(bo.Type()); !isInt {
+					continue
+				}
+				var d ssa.Value
+				var K int64
+				if k, ok := scaleOf(bo.X); ok {
+					K, d = k, bo.Y
+				} else if k, ok := scaleOf(bo.Y); ok {
+					K, d = k, bo.X
+				} else {
+					continue
+				}
+				if K != 8 && K != 10 && K != 16 {
+					continue
+				}
+				if bo.Op == token.OR && K == 10 {
+					continue
+				}
+				d0 := stripConv(d)
+				pos := c.P.Pos(bo.Pos())
+				inv := func(key, why string) {
+					s.Obs = append(s.Obs, core.Obligation{Rule: s.Rule, Construct: key, Pos: pos, Verdict: core.Discharged, Fact: "inventory: not decided (" + why + ")", Props: props, Trivial: true})
+				}
+				// a digit parsed by strconv: the radix of the parse is the radix of the scale
+				if ex, ok := d0.(*ssa.Extract); ok && ex.Index == 0 {
+					call, ok := ex.Tuple.(*ssa.Call)
+					if !ok {
+						continue
+					}
+					g := call.Common().StaticCallee()
+					if g == nil {
+						continue
+					}
+					base := int64(-1)
+					switch g.String() {
+					case "strconv.Atoi":
+						base = 10
+					case "strconv.ParseInt", "strconv.ParseUint":
+						if k, ok := constInt(call.Common().Args[1]); ok {
+							base = k
+						}
+					default:
+						continue
+					}
+					// only single-character parses are digit values
+					cv, ok := call.Common().Args[0].(*ssa.Convert)
+					if !ok {
+						continue
+					}
+					if _, _, isInt := intTypeInfo(cv.X.Type()); !isInt {
+						continue
+					}
+					n++
+					key := fmt.Sprintf("digit/%s#%d", core.FuncName(f), n)
+					switch {
+					case base < 0:
+						inv(key, "the radix of the parse is not a constant")
+					case base != K:
+						s.Bad(key, pos, fmt.Sprintf("a digit parsed in radix %d is accumulated with the scale %d: the number assembled is not the one the digits denote", base, K), props...)
+					default:
+						s.OK(key, pos, fmt.Sprintf("one code point parsed by %s in radix %d, scaled by %d", g.Name(), base, K), props...)
+					}
+					continue
+				}
+				if call, ok := d0.(*ssa.Call); ok {
+					_ = call
+					continue // a digit-value function: judged above when it is one of the module's
+				}
+				leaves := map[ssa.Value]bool{}
+				arith := 0
+				digitLeaves(d0, map[ssa.Value]bool{}, leaves, &arith)
+				if arith == 0 || len(leaves) != 1 {
+					continue // not arithmetic on one value: not a digit conversion in place
+				}
+				var leaf ssa.Value
+				for l := range leaves {
+					leaf = l
+				}
+				if _, _, isInt := intTypeInfo(leaf.Type()); !isInt {
+					continue
+				}
+				n++
+				key := fmt.Sprintf("digit/%s#%d", core.FuncName(f), n)
+				// the set the dominating membership test admits
+				var dom iset
+				found := false
+				for _, fact := range Facts(c, f).At(b) {
+					call, ok := fact.Cond.(*ssa.Call)
+					if !ok || !fact.Val || len(call.Common().Args) != 2 {
+						continue
+					}
+					g := call.Common().StaticCallee()
+					if g == nil || g.Name() != "Test" || stripConv(call.Common().Args[1]) != leaf {
+						continue
+					}
+					ld, ok := call.Common().Args[0].(*ssa.UnOp)
+					if !ok {
+						continue
+					}
+					gl, ok := ld.X.(*ssa.Global)
+					if !ok || gl.Pkg == nil {
+						continue
+					}
+					tv, _ := tabs.Global(gl.Pkg.Pkg.Name(), gl.Name())
+					bs, ok := tv.(*tvBitset)
+					if !ok {
+						continue
+					}
+					if found {
+						dom = dom.intersect(bs.iset())
+					} else {
+						dom, found = bs.iset(), true
+					}
+				}
+				if !found {
+					inv(key, "no dominating membership test of the code point in a set with a known table")
+					continue
+				}
+				digitVal := func(ch int64) (int64, bool) {
+					var v int64 = -1
+					switch {
+					case ch >= '0' && ch <= '9':
+						v = ch - '0'
+					case ch >= 'A' && ch <= 'Z':
+						v = ch - 'A' + 10
+					case ch >= 'a' && ch <= 'z':
+						v = ch - 'a' + 10
+					}
+					return v, v >= 0 && v < K
+				}
+				bad, undec := "", ""
+				var judge func(lo, hi int64, depth int)
+				judge = func(lo, hi int64, depth int) {
+					if bad != "" || undec != "" {
+						return
+					}
+					h := &hexEval{param: leaf, gate: true}
+					r := h.eval(d, lo, hi, map[*ssa.Phi]ssa.Value{}, 0)
+					if !r.known || r.isBool {
+						if lo < hi && depth < 12 {
+							mid := (lo + hi) / 2
+							judge(lo, mid, depth+1)
+							judge(mid+1, hi, depth+1)
+							return
+						}
+						undec = h.why
+						if undec == "" {
+							undec = "the value is not of the form c + constant under comparisons of c with constants"
+						}
+						return
+					}
+					for ch := lo; ch <= hi; ch++ {
+						want, isDigit := digitVal(ch)
+						if !isDigit {
+							undec = fmt.Sprintf("the membership test admits %q, which is not a digit in radix %d", rune(ch), K)
+							return
+						}
+						if got := r.slope*ch + r.offset; got != want {
+							bad = fmt.Sprintf("the digit %q is given the value %d, not %d", rune(ch), got, want)
+							return
+						}
+					}
+				}
+				for _, iv := range dom {
+					judge(iv.lo, iv.hi, 0)
+				}
+				switch {
+				case bad != "":
+					s.Bad(key, pos, bad+": the number assembled from the digits is not the one they denote", props...)
+				case undec != "":
+					inv(key, undec)
+				default:
+					s.OK(key, pos, fmt.Sprintf("every member of %s is given its value in radix %d", dom.String(), K), props...)
+				}
+			}
+		}
+	}
 }
 
 func sortFns(fs []*ssa.Function) {
